@@ -660,7 +660,7 @@ func ruleScanUnit(r *Run) {
 								if callee == nil {
 									continue
 								}
-								if k == "Bytes" && callee.Name() == "ParseDuration" || k == "Duration" && callee.Name() == "ParseBytes" {
+								if k == "Bytes" && cname(callee) == "ParseDuration" || k == "Duration" && cname(callee) == "ParseBytes" {
 									k += "(validated by the wrong parser)"
 								}
 							}
@@ -762,7 +762,7 @@ func ruleParserUniqueness(r *Run) {
 		// in nextToken or a helper of it
 		for _, gf := range funcGroup(lx) {
 			for _, c := range callsIn(gf) {
-				if callee := staticCallee(c); callee != nil && callee.Name() == "Unquote" {
+				if callee := staticCallee(c); callee != nil && cname(callee) == "Unquote" {
 					n++
 				}
 			}
@@ -774,7 +774,7 @@ func ruleParserUniqueness(r *Run) {
 			continue
 		}
 		for _, c := range callsIn(fn) {
-			if callee := staticCallee(c); callee != nil && callee.Name() == "Unquote" {
+			if callee := staticCallee(c); callee != nil && cname(callee) == "Unquote" {
 				nParser++
 			}
 		}
